@@ -126,23 +126,25 @@ def register_late(case):
 
 
 def make(case, allow):
+    """allow = True / False: allow_custom handed over explicitly; None: the argument is not given at all (its default)"""
     import copy
     data = copy.deepcopy(case["data"])
+    kw = {} if allow is None else {"allow_custom": allow}
     if case["route"] == "parse":
-        return stix2.parse(data, allow_custom=allow)
+        return stix2.parse(data, **kw)
     if case["route"] == "parse_observable":
-        return stix2.parse_observable(data, allow_custom=allow, version=case["cid"][:3])
+        return stix2.parse_observable(data, version=case["cid"][:3], **kw)
     if case.get("prebuilt"):
         prebuild(data, case["prebuilt"])
     if case["route"] == "new_version":
         # a valid object first, then versioning.new_version with the extra (custom) properties
         base = find_class(case["cid"])(allow_custom=False, **data)
-        return stix2.versioning.new_version(base, allow_custom=allow, **copy.deepcopy(case["extra_props"]))
+        return stix2.versioning.new_version(base, **dict(copy.deepcopy(case["extra_props"]), **kw))
     if case["route"] == "construct_positional":
         # Bundle(*members, **rest): the members handed over positionally
         members = data.pop("objects", [])
-        return find_class(case["cid"])(*members, allow_custom=allow, **data)
-    return find_class(case["cid"])(allow_custom=allow, **data)
+        return find_class(case["cid"])(*members, **dict(data, **kw))
+    return find_class(case["cid"])(**dict(data, **kw))
 
 
 def attempt(f):
@@ -156,7 +158,7 @@ def attempt(f):
 
 def signature(o):
     return [o.get("strict_ok"), (o.get("strict_err") or "").split(":")[0], o.get("allow_ok"), o.get("allow_is_obj"), o.get("hc"),
-            o.get("reparse_ok")]
+            o.get("reparse_ok"), o.get("default_ok")]
 
 
 def observe(case):
@@ -204,6 +206,12 @@ def observe(case):
     if ok:
         out["strict_is_obj"] = isinstance(obj, _STIXBase)
         out["strict_hc"] = bool(obj.has_custom) if isinstance(obj, _STIXBase) else None
+    # customization not mentioned at all: every entry point's default is "not requested", so the outcome is the strict one
+    okd, objd, errd = attempt(lambda: make(case, None))
+    out["default_ok"] = okd
+    out["default_err"] = errd
+    if okd:
+        out["default_hc"] = bool(objd.has_custom) if isinstance(objd, _STIXBase) else None
     ok, obj, err = attempt(lambda: make(case, True))
     out["allow_ok"] = ok
     out["allow_err"] = err
@@ -228,14 +236,21 @@ def judge(case, o):
     if case.get("twice") and o.get("signature") != o.get("again_signature"):
         fails.append({"kind": "same-input-different-outcome",
                       "detail": {"site": case.get("site"), "first": o.get("signature"), "again": o.get("again_signature"),
-                                 "order": "strict_ok, strict error, allow_ok, allow gives object, has_custom, strict reparse ok"}})
+                                 "order": "strict_ok, strict error, allow_ok, allow gives object, has_custom, strict reparse ok, default ok"}})
     if case.get("late") and "signature" in o and o["signature"] != o["control_signature"]:
         fails.append({"kind": "registration-time-changes-outcome",
                       "detail": {"site": case.get("site"), "late_registered": o["signature"], "registered_up_front": o["control_signature"],
-                                 "order": "strict_ok, strict error, allow_ok, allow gives object, has_custom, strict reparse ok"}})
+                                 "order": "strict_ok, strict error, allow_ok, allow gives object, has_custom, strict reparse ok, default ok"}})
     if case.get("custom") and o["strict_ok"]:
         fails.append({"kind": "custom-content-admitted-with-customization-disallowed",
                       "detail": {"site": case.get("site"), "has_custom": o.get("strict_hc"), "is_object": o.get("strict_is_obj")}})
+    if "default_ok" in o:
+        sig_s = [o["strict_ok"], (o.get("strict_err") or "").split(":")[0], o.get("strict_hc")]
+        sig_d = [o["default_ok"], (o.get("default_err") or "").split(":")[0], o.get("default_hc")]
+        if sig_s != sig_d:
+            fails.append({"kind": "customization-not-mentioned-differs-from-customization-disallowed",
+                          "detail": {"site": case.get("site"), "allow_custom=False": sig_s, "argument not given": sig_d,
+                                     "order": "accepted, error, has_custom"}})
     if o["strict_ok"] and o.get("strict_is_obj") and o.get("strict_hc"):
         if not case.get("custom") and not case.get("requested"):
             fails.append({"kind": "strictly-made-object-flagged-custom", "detail": {"site": case.get("site")}})
